@@ -152,7 +152,10 @@ def run(ctx, build):
         compression = rng.choice([None, None, 'gzip', 'lzf'])
         chunks = (max(1, lay.N // 2), lay.M) if (compression or rng.random() < 0.4) else None
         with h5py.File(paths[0], 'w') as f, h5py.File(paths[1], 'w') as fo:
-            main = gen.write_layout(f, lay, chunks=chunks, compression=compression)
+            # every third source was allocated with a non-zero HDF5 fill value: the new dataset is still empty (zero)
+            fillvalue = {'f8': np.nan, 'f4': -1.0, 'i4': -1}.get(lay.dtype) if hi % 3 == 0 else None
+            hist['source_with_nonzero_fill_value'] = hist.get('source_with_nonzero_fill_value', 0) + int(fillvalue is not None)
+            main = gen.write_layout(f, lay, chunks=chunks, compression=compression, fillvalue=fillvalue)
             extra = rng.choice([{}, {'extra': 5}, {'note': 'hello', 'vec': [1, 2, 3]}, {'scale': 2.5}])
             for k, v in extra.items():
                 main.attrs[k] = v
@@ -190,6 +193,8 @@ def run(ctx, build):
             for ci in range(rng.randint(1, 3)):
                 # ---- what the name holds now
                 req_dt = rng.choice(list(REQ_DTYPES))
+                if fillvalue is not None and ci == 0 and lay.dtype in REQ_DTYPES:
+                    req_dt = lay.dtype                                # designed: the source's own element type (and its fill value is not zero)
                 if ci > 0 and rng.random() < 0.6:
                     req_dt = prev_dt                                  # ask again for the same thing
                 call_name = name
@@ -211,7 +216,8 @@ def run(ctx, build):
                 elif r < 0.38 and ci == 0:
                     bad = 'existing_incompatible'
                     dest.create_dataset(name.replace('-', '_'), data=np.ones((2, 2)))
-                new_attrs = rng.choice([None, None, {'zeta': 1}, {'quantity': 'Force', 'label': 'fit'}, {'units': 'pN'}])
+                new_attrs = rng.choice([None, None, {'zeta': 1}, {'quantity': 'Force', 'label': 'fit'}, {'units': 'pN'},
+                                        {'iteration': 0, 'extra': 0}, {'converged': False, 'offset': 0.0, 'scale': 0.0}])
                 skip_refs = rng.random() < 0.15
                 clean = name.replace('-', '_')
                 state = 'absent'
